@@ -60,8 +60,13 @@ type ReplayFile struct {
 	Note         string          `json:"note,omitempty"`
 	// Seeded: draw the schedule/fault stream from RunSeed instead of Choices
 	// (used when a batch hands a run to a fresh process).
-	Seeded bool       `json:"seeded,omitempty"`
-	Report *RunReport `json:"report,omitempty"`
+	// WorkerFrom is the first seeded run index of the worker process that found the violation. With WarmUp the
+	// replay first re-executes the seeded runs WorkerFrom..Index-1 in the same process (the state of lazily filled
+	// package-level tables and of the standard library's internal pools is then the one the run met), then the run itself.
+	WorkerFrom uint64     `json:"worker_from,omitempty"`
+	WarmUp     bool       `json:"warm_up,omitempty"`
+	Seeded     bool       `json:"seeded,omitempty"`
+	Report     *RunReport `json:"report,omitempty"`
 }
 
 func (r *ReplayFile) Write(path string) error {
@@ -158,5 +163,5 @@ type BatchResult struct {
 	Violations            []string          `json:"violations"` // replay file paths
 	WallS                 float64           `json:"wall_s"`
 	SystematicTotal       uint64            `json:"systematic_total,omitempty"` // size of the systematic corpus of this property and tier (same in every worker)
-	LogHashXor            uint64            `json:"log_hash_xor"` // xor of all runs' event-log hashes (determinism self-test)
+	LogHashXor            uint64            `json:"log_hash_xor"`               // xor of all runs' event-log hashes (determinism self-test)
 }
